@@ -38,7 +38,40 @@ func TestVerifSim(t *testing.T) {
 var (
 	tempOnce sync.Once
 	tempDir  string
+	// slotMemo: what the real exporter wrote for a plain slot (content fixed by slot number), per process
+	slotMemo = map[string]*memoSlot{}
 )
+
+type recordedPut struct {
+	rel      string
+	body     []byte
+	ifAbsent bool
+}
+
+type memoSlot struct {
+	puts []recordedPut
+	ref  backup.SlotReference
+}
+
+// recordingStore passes everything to the simulated store and notes the Puts of one ExportSlot call.
+type recordingStore struct {
+	*simStore
+	root string
+	rec  *[]recordedPut
+}
+
+func (s *recordingStore) Put(ctx context.Context, put backup.PutObject) error {
+	if s.rec == nil {
+		return s.simStore.Put(ctx, put)
+	}
+	body, err := io.ReadAll(put.Body)
+	if err != nil {
+		return err
+	}
+	*s.rec = append(*s.rec, recordedPut{rel: strings.TrimPrefix(put.Key, s.root), body: body, ifAbsent: put.IfAbsent})
+	put.Body = bytes.NewReader(body)
+	return s.simStore.Put(ctx, put)
+}
 
 const (
 	maxChunk     = int(backup.MaxChunkLogicalBytes)
@@ -317,10 +350,51 @@ func (w *world) request() runtimebackup.PublishArchiveRequest {
 // the export phase is torn, the "process" restarts and resumes at that slot.
 func (w *world) export(store *simStore, crash bool) bool {
 	r := w.r
-	exp, err := runtimebackup.NewFullExporter(runtimebackup.FullExporterOptions{Store: store, Source: &simSource{slots: w.slots}, TempDir: tempDir})
+	rs := &recordingStore{simStore: store, root: w.root}
+	exp, err := runtimebackup.NewFullExporter(runtimebackup.FullExporterOptions{Store: rs, Source: &simSource{slots: w.slots}, TempDir: tempDir})
 	if err != nil {
 		r.Infra("exporter: %v", err)
 		return false
+	}
+	isRich := map[int]bool{}
+	for _, s := range w.rich {
+		isRich[s] = true
+	}
+	// plain slots (fixed content per slot number) go through the real exporter once per
+	// process; afterwards the Puts it issued are replayed verbatim (same keys, bodies, order,
+	// so crash points behave the same). A few tape-chosen plain slots are always exported for real.
+	forceReal := map[int]bool{}
+	for i := 0; i < 4; i++ {
+		forceReal[r.Tape.Intn(backup.DefaultHashSlotCount)] = true
+	}
+	exportOne := func(slot int) (backup.SlotReference, error) {
+		mk := fmt.Sprintf("%d/%v", slot, w.identical)
+		m := slotMemo[mk]
+		if isRich[slot] || forceReal[slot] || m == nil {
+			var puts []recordedPut
+			rs.rec = nil
+			if !isRich[slot] {
+				rs.rec = &puts
+			}
+			ref, err := exp.ExportSlot(w.ctx, w.id, uint16(slot))
+			rs.rec = nil
+			if err == nil && !isRich[slot] {
+				if m != nil && (m.ref != ref || len(m.puts) != len(puts)) {
+					r.Infra("exporter is not deterministic for plain slot %d", slot)
+				}
+				slotMemo[mk] = &memoSlot{puts: puts, ref: ref}
+			}
+			return ref, err
+		}
+		if err := store.DeletePrefix(w.ctx, fmt.Sprintf("%sslots/%03d", w.root, slot)); err != nil {
+			return backup.SlotReference{}, err
+		}
+		for _, p := range m.puts {
+			if err := store.Put(w.ctx, backup.PutObject{Key: w.root + p.rel, Body: bytes.NewReader(p.body), ExpectedBytes: uint64(len(p.body)), IfAbsent: p.ifAbsent}); err != nil {
+				return backup.SlotReference{}, err
+			}
+		}
+		return m.ref, nil
 	}
 	if crash {
 		total := 0
@@ -332,7 +406,7 @@ func (w *world) export(store *simStore, crash bool) bool {
 	}
 	w.refs = make([]backup.SlotReference, backup.DefaultHashSlotCount)
 	for slot := 0; slot < backup.DefaultHashSlotCount; slot++ {
-		ref, err := exp.ExportSlot(w.ctx, w.id, uint16(slot))
+		ref, err := exportOne(slot)
 		if err != nil {
 			if !errors.Is(err, errCrashed) {
 				w.fail("export-failed", "slot", "ExportSlot(%d) on a healthy store: %v", slot, err)
